@@ -930,3 +930,41 @@ reg(Prop("C02", "Playing a move produces the successor position the rules prescr
                       "they re-establish valid_core (one king per side, side not to move not in check, consistent en-passant target), not the "
                       "remaining conjuncts of valid"],
          design_ref="5/C02"))
+
+reg(Prop("C01", "Playable moves are exactly the legal moves of chess", "Properties/C01.v",
+         [StreamCfg("gen", 4000, 120000, judge="judge_c01x",
+                    rule="positions: every root of harness/posgen (hand roots for castling next to/through attacked or "
+                         "occupied squares, en passant incl. pins and file-edge cases, promotions, double checks, bare "
+                         "kings; 127 roots of debug/standard.epd), then ~60 % random legal play-outs (<= 120 plies, biased "
+                         "to captures/checks/promotions/castling/double pushes/en passant), ~30 % random sparse placements "
+                         "(2-12 pieces, promoted material, castling/ep flags), ~10 % single-piece mutations; thorough tier "
+                         "adds every placement of KQK, KRK, KPK (both pawn colours, both sides to move, all consistent "
+                         "ep/castling states) and a strided subset of twelve 4-piece materials; every position passed the "
+                         "harness filter posgen.Valid, and the judge re-checks rep_ok (violation clause 8) and Spec `valid` "
+                         "(positions outside it are accepted unjudged); compared: exact noisy list, quiet list and playable "
+                         "list against the model, and the playable list against legal_spec enumerated over all candidate "
+                         "encodings (clauses 1 not legal / 2 missing / 3 duplicate); non-trivial = every such position; "
+                         "distinct by FEN (placement, side to move, rights, ep target, clocks)"),
+          StreamCfg("perft", 120, 420, judge="judge_perftx", model=False,
+                    rule="debug.Perft against the spec's perft (legal_moves + succ_spec): hand roots, then random roots "
+                         "of debug/standard.epd, then positions reached by play; depth = the largest d <= 3 (thorough: 4) "
+                         "whose tree needs <= 130 (thorough: 1500) expanded spec nodes; non-trivial = depth >= 2; "
+                         "distinct by (FEN, depth)"),
+          StreamCfg("c01valid", 4000, 120000,
+                    rule="the harness-side domain filter posgen.Valid (and the engine's en-passant convention) against Spec "
+                         "`valid` / `normal_ep` on the very positions of stream gen (same generator and seed): a position "
+                         "the harness calls valid but the specification does not would be accepted unjudged by stream gen, "
+                         "so the two must agree; not counted in distinct_nontrivial (same positions as stream gen)")],
+         trusted=["hook board/export_verif.go (VerifSnapshot/VerifRestore: the harness builds engine boards from the wire "
+                  "format and from FEN through board.FromFEN)",
+                  "harness/posgen.Legal is the glue 'GenNoisy + GenNotNoisy, MakeMove, InCheck(mover), UndoMove' copied "
+                  "from search.go/debug/perft.go; debug.Perft itself is run unmodified in stream perft",
+                  "attack tables: the model uses the geometric sliders/leapers of Spec/Geometry.v; that the engine's magic "
+                  "tables compute them is property C12 and is exercised here by the exact-list comparison of stream gen"],
+         assumptions=["position valid in the sense of Spec/Chess.v `valid` (DESIGN.md 4.3: one king per side, no pawns on "
+                      "ranks 1/8, promotion-reachable material, side not to move not in check, castling rights only with king "
+                      "and rook at home, en-passant target only behind a pawn that could just have double-pushed incl. "
+                      "ep_pred_ok); board satisfies the representation invariant Rep (Spec/Rep.v; re-checked on every "
+                      "sampled board by the judge)",
+                      "moves are the 15-bit encodings of move.Move (from, to, promotion piece); the Zobrist table is arbitrary"],
+         design_ref="5/C01"))
